@@ -317,6 +317,9 @@ func (propC20) Gen(seed uint64, ex map[string]bool) interface{} {
 		var ops []c20Op
 		var seen []c20Op
 		phases := r.Range(2, 5)
+		if ex["tier:thorough"] {
+			phases = r.Range(3, 12)
+		}
 		for ph := 0; ph < phases; ph++ {
 			switch r.N(5) {
 			case 0: // ordinary lookups
